@@ -701,7 +701,7 @@ func (vfs *MemFS) Rel(basepath, targpath string) (string, error) {
 
 // Remove removes the named file or (empty) directory.
 // If there is an error, it will be of type *PathError.
-func (vfs *MemFS) Remove(name string) error {
+func (vfs *MemFS) Remove(name string) (err error) {
 	const op = "remove"
 
 	parent, child, pi, err := vfs.searchNode(name, slmLstat)
@@ -714,12 +714,28 @@ func (vfs *MemFS) Remove(name string) error {
 		return &fs.PathError{Op: op, Path: name, Err: vfs.err.InvalidArgument}
 	}
 
+	// Deferred before the locks are taken, so that the call starts again after they are released.
+	again := false
+
+	defer func() {
+		if again {
+			err = vfs.Remove(name)
+		}
+	}()
+
 	avfs.VerifBeforeLock(&parent.mu, true)
 	parent.mu.Lock()
 	defer parent.mu.Unlock()
 
 	if !parent.checkPermission(avfs.OpenWrite, vfs.User()) {
 		return &fs.PathError{Op: op, Path: name, Err: vfs.err.PermDenied}
+	}
+
+	if parent.children[pi.Part()] != child {
+		// The name was removed or given to another node since the path was resolved : resolve it again.
+		again = true
+
+		return nil
 	}
 
 	child.Lock()
@@ -731,12 +747,7 @@ func (vfs *MemFS) Remove(name string) error {
 		}
 	}
 
-	part := pi.Part()
-	if parent.children[part] == nil {
-		return &fs.PathError{Op: op, Path: name, Err: vfs.err.NoSuchDir}
-	}
-
-	parent.removeChild(part)
+	parent.removeChild(pi.Part())
 	child.delete()
 
 	return nil
